@@ -791,3 +791,153 @@ Proof.
 Qed.
 
 End YTop.
+
+(* ------------------------------------------------------------------ *)
+(** * The two theorems for the composed model *)
+
+Section YTheorems.
+Variable nint : Z -> Z -> Z -> Z.
+
+Lemma ysim_reported base N y t :
+  IdSim base no_logs (y_sim y) (y_sim t) -> MdlRel (length (l_ob base)) N (y_mdl y) (y_mdl t) ->
+  yreported y = yreported t.
+Proof.
+  intros H M. unfold yreported. apply (reported_xrel base N). constructor; auto.
+Qed.
+
+(* RE-INITIALISATION of the composed model.  y: ANY state that is not running
+   (whatever happened before, with whatever listeners subscribed, however far
+   the streams were consumed, whatever statistics exist).  Initialise it for
+   replication r of model M -- construct_model re-seeds the streams, builds a
+   new producer with its subscriptions and new statistics -- and do the same
+   with a brand-new simulator; then any further history h (any commands, any
+   models taking turns) gives the same snapshots, and the re-initialised
+   simulator logs exactly what the new one logs: executed events, cancellations,
+   outcomes, notifications, statistics feed, deliveries to listeners and random
+   draws -- on top of what it had logged before; producer, streams and the
+   reported statistics are equal. *)
+Theorem y_reinit_fresh M r y fuel hf h :
+  running (y_sim y) = false -> NoDup (keys_of (ym_stats M)) ->
+  let a := fst (fst (ydo_init nint M hf y r)) in
+  let b := fst (fst (ydo_init nint M hf (y0 (strat (y_sim y))) r)) in
+  let ra := y_hist nint fuel hf a h in
+  let rb := y_hist nint fuel hf b h in
+  let ya := fst (fst ra) in let yb := fst (fst rb) in
+  snd (fst (ydo_init nint M hf y r)) = ResOk
+  /\ snd (fst ra) = snd (fst rb) /\ snd ra = snd rb
+  /\ logs_of (y_sim ya) = lapp (logs_of (y_sim yb)) (logs_of (y_sim y))
+  /\ y_dlv ya = y_dlv yb ++ y_dlv y
+  /\ y_drw ya = y_drw yb ++ y_drw y
+  /\ y_subm ya = y_subm yb /\ y_str ya = y_str yb /\ y_ser ya = y_ser yb
+  /\ yreported ya = yreported yb.
+Proof.
+  intros R ND. cbv zeta.
+  set (B := mkYB (logs_of (y_sim y)) no_logs (y_dlv y) [] (y_drw y) [] (length (m_objs (y_mdl y)))).
+  assert (BL : (length (l_ob (yb_t B)) <= length (l_ob (yb_s B)))%nat) by (cbn; lia).
+  assert (LB : yb_L B = length (obs (y_sim y))) by (unfold yb_L, B; cbn; lia).
+  (* the two initialised states are related *)
+  assert (Y0 : YSim B (fst (fst (ydo_init nint M hf y r))) (fst (fst (ydo_init nint M hf (y0 (strat (y_sim y))) r)))
+               /\ snd (fst (ydo_init nint M hf y r)) = ResOk).
+  { rewrite !ydo_init_eq, R. replace (running (y_sim (y0 (strat (y_sim y))))) with false by reflexivity. cbv zeta.
+    set (L := length (obs (y_sim y))). set (N := length (m_objs (y_mdl y))).
+    assert (M0 : MdlRel L N (mkMdl [] (map (cut_obj L) (m_objs (y_mdl y)))) (mkMdl [] (map (cut_obj 0) []))).
+    { constructor; cbn [m_map m_objs map]; auto.
+      - rewrite skipn_all2; auto. rewrite map_length. unfold N. lia.
+      - rewrite map_length. cbn. unfold N. lia. }
+    assert (EL : L = (0 + L)%nat) by reflexivity.
+    destruct (build_stats_mrel L N L 0%nat (ym_stats M) _ _ EL M0) as [M1 E1].
+    pose proof (build_stats_ok 0%nat (ym_stats M) (mkMdl [] (map (cut_obj 0) [])) ND (fun k _ => eq_refl)) as Ok.
+    replace (length (obs (y_sim (y0 (strat (y_sim y)))))) with 0%nat by reflexivity.
+    replace (m_objs (y_mdl (y0 (strat (y_sim y))))) with (@nil sobj) by reflexivity.
+    rewrite E1, Ok. cbn [fst snd]. split; auto.
+    rewrite <- (yinit_body_rsps nint M hf PNotInit RNotInit y).
+    rewrite !yinit_body_tail. apply yinit_tail_ysim.
+    split; cbn [y_sim].
+    - replace (strat (y_sim y)) with (strat (y_sim (rsps PNotInit RNotInit y))) by reflexivity.
+      replace (worker (set_pend [] (y_sim (y0 (strat (y_sim (rsps PNotInit RNotInit y))))))) with WNone by reflexivity.
+      cbv iota. unfold B. cbn [yb_s yb_t].
+      replace (logs_of (y_sim y)) with (logs_of (y_sim (rsps PNotInit RNotInit y))) by reflexivity.
+      apply init_pre_idsim; reflexivity.
+    - constructor; try reflexivity.
+      + exists []. auto.
+      + exists []. auto.
+      + rewrite LB. exact M1. }
+  destruct Y0 as [Y0 Ok0]. split; auto.
+  destruct (y_hist_ysim nint B BL fuel hf h _ _ Y0) as (Y & E & E').
+  destruct Y as [H Rr]. split; [symmetry; exact E|]. split; [symmetry; exact E'|].
+  destruct Rr as [R1 R2 R3 [nd [D D']] [nw [W W']] Rm].
+  cbn [yb_ds yb_dt yb_ws yb_wt B] in *. rewrite app_nil_r in D', W'.
+  split.
+  { destruct H as [_ [n [A A']]]. cbn [yb_s yb_t B] in *. rewrite lapp_no_logs in A'. rewrite A'. exact A. }
+  split; [rewrite D', D; reflexivity|]. split; [rewrite W', W; reflexivity|].
+  split; [auto|]. split; [auto|]. split; [auto|].
+  apply (ysim_reported (logs_of (y_sim y)) (length (m_objs (y_mdl y)))); auto.
+  rewrite LB in Rm. exact Rm.
+Qed.
+
+(* EVENT-ID RENAMING for the composed model *)
+Definition ren_y (f : Z -> Z) (n' : Z) (y : ysim) : ysim := with_sim y (ren_sim f n' (y_sim y)).
+
+Lemma shift_map_0 m : shift_map 0 m = m.
+Proof.
+  unfold shift_map. induction m as [|[k i] r IH]; cbn [map fst snd]; auto.
+  rewrite IH, Nat.add_0_r. reflexivity.
+Qed.
+
+Lemma shift_obj_0 o : shift_obj 0 o = o.
+Proof.
+  unfold shift_obj. destruct o as [k kd sd fr [u|]]; cbn; rewrite ?Nat.add_0_r; reflexivity.
+Qed.
+
+Lemma map_shift_obj_0 l : map (shift_obj 0) l = l.
+Proof. induction l as [|o r IH]; cbn [map]; auto. rewrite IH, shift_obj_0. reflexivity. Qed.
+
+Lemma mdlrel_0 m : MdlRel 0 0 m m.
+Proof. constructor; cbn [skipn]; rewrite ?shift_map_0, ?map_shift_obj_0; auto. Qed.
+
+Lemma mdlrel_0_eq mx my : MdlRel 0 0 mx my -> mx = my.
+Proof.
+  intros [A Bq _]. rewrite shift_map_0 in A. cbn [skipn] in Bq. rewrite map_shift_obj_0 in Bq.
+  destruct mx, my; cbn in *; congruence.
+Qed.
+
+Theorem y_run_id_monotone_invariant f n' y fuel hf h :
+  (forall a, In a (dom (y_sim y)) -> a < nid (y_sim y)) -> MonoOn f n' (y_sim y) ->
+  let ra := y_hist nint fuel hf y h in
+  let rb := y_hist nint fuel hf (ren_y f n' y) h in
+  let ya := fst (fst ra) in let yb := fst (fst rb) in
+  snd (fst rb) = snd (fst ra) /\ snd rb = snd ra
+  /\ logs_of (y_sim yb) = logs_of (y_sim ya)
+  /\ y_dlv yb = y_dlv ya /\ y_drw yb = y_drw ya
+  /\ y_subm yb = y_subm ya /\ y_str yb = y_str ya /\ y_ser yb = y_ser ya
+  /\ yreported yb = yreported ya.
+Proof.
+  intros Lo Mo. cbv zeta.
+  set (s := y_sim y).
+  set (B := mkYB (logs_of s) (logs_of s) (y_dlv y) (y_dlv y) (y_drw y) (y_drw y) 0).
+  assert (BL : (length (l_ob (yb_t B)) <= length (l_ob (yb_s B)))%nat) by (cbn; lia).
+  assert (LB : yb_L B = 0%nat) by (unfold yb_L, B; cbn; lia).
+  assert (Y0 : YSim B y (ren_y f n' y)).
+  { split; [apply ren_sim_idsim; auto|]. constructor; try reflexivity.
+    - exists []. auto.
+    - exists []. auto.
+    - rewrite LB. apply mdlrel_0. }
+  destruct (y_hist_ysim nint B BL fuel hf h _ _ Y0) as (Y & E & E').
+  destruct Y as [H Rr]. split; auto. split; auto.
+  destruct Rr as [R1 R2 R3 [nd [D D']] [nw [W W']] Rm].
+  cbn [yb_ds yb_dt yb_ws yb_wt B] in *.
+  assert (EL : logs_of (y_sim (fst (fst (y_hist nint fuel hf (ren_y f n' y) h))))
+               = logs_of (y_sim (fst (fst (y_hist nint fuel hf y h))))).
+  { destruct H as [_ [n [A A']]]. cbn [yb_s yb_t B] in *. congruence. }
+  split; auto. split; [congruence|]. split; [congruence|]. split; auto. split; auto. split; auto.
+  rewrite LB in Rm. apply mdlrel_0_eq in Rm.
+  unfold yreported, reported. cbn [x_mdl x_sim]. rewrite <- Rm.
+  apply map_ext. intros [k i]. cbn [fst snd]. f_equal.
+  destruct (nth_error (m_objs (y_mdl (fst (fst (y_hist nint fuel hf y h))))) i) as [o|]; auto.
+  unfold feed. f_equal. f_equal.
+  change (obs (y_sim (fst (fst (y_hist nint fuel hf (ren_y f n' y) h)))))
+    with (l_ob (logs_of (y_sim (fst (fst (y_hist nint fuel hf (ren_y f n' y) h)))))).
+  rewrite EL. reflexivity.
+Qed.
+
+End YTheorems.
